@@ -571,6 +571,10 @@ func c06Match(c *vrep.Ctx) {
 		}
 		c.Bound("layout", "every paragraph of the document on ONE line")
 	}
+	crlf := c.Param("eol", "lf") == "crlf"
+	if crlf {
+		c.Bound("line_ends", "CRLF in the text and in the edit")
+	}
 	positions := c.ParamInt("positions", c.Pick(3, 12))
 	kinds := strings.Split(c.Param("kinds", strings.Join(c06Kinds, ",")), ",")
 	c.R.Rule = fmt.Sprintf("Match level: %d documents in OOV context x edit kinds %v (8 notice templates, 2 date forms, 8 markers on one/all eligible lines, word splits at every split point, 35 spelling pairs both directions, http<->https) at up to %d evenly spread positions (0 = every position); license matches must be identical (names, variants, confidences, token spans, mapped lines) and every inserted notice reported on its line; non-trivial = distinct (document, edit) cases whose base input has a license match", len(docs), kinds, positions)
@@ -585,6 +589,11 @@ func c06Match(c *vrep.Ctx) {
 		if r.Scout() || e.ID == "" {
 			r.Note = map[string]interface{}{"none": true}
 			return
+		}
+		if crlf {
+			// the same text and the same edit with CRLF line ends throughout
+			base = strings.ReplaceAll(base, "\n", "\r\n")
+			e.Text = strings.ReplaceAll(e.Text, "\n", "\r\n")
 		}
 		r0, ok := baseCache[d.Key]
 		if !ok {
